@@ -26,6 +26,16 @@ package main
 //   s.seq=1,2 s.cut=0 s.run=nil s.end=closed p.seq=1,2 p.cut=0 p.run=nil p.end=closed tagsok=1 reqok=1 s.hd=*:^ p.hd=*:^
 // A source that the constructor rejects is observed as run=construct end=norun on that side.
 //
+// Round 3: `cf=1` = closing the ammo file fails (file sources; observed: `X.closed` = number of Close calls on the file,
+// `-` without a file, and run=closeerr / run=<class>+closeerr / run=other when Run's own error and the close error were
+// made into one in which errors.Is finds neither); limit / passes are any uint64 (`limit=18446744073709551615`);
+// `pad=N` = every entry's URI carries a query of N bytes (files larger than the decoders' buffers; invisible to the
+// model); `big=i:size[,j:size2]` = entry i is `size` bytes big (uripost, http/json: its body; raw: its request — sizes around the
+// 1 MiB chunk of decoders.readSized).  The consumer treats every delivered request like a gun (sets scheme, target,
+// Host if empty, Set/Add on its headers, reads its body) AFTER looking at it: a request must be the consumer's own.
+// Before every cell side the child runs a PRELUDE provider of the same format and mode with another configuration
+// (c14cell.Prelude): what an earlier provider of the process left behind must not matter.
+//
 // Every cell runs in a CHILD process (this binary with C14_CHILD=1, a pool of them, one line per request on
 // stdin/stdout): a fatal runtime error of the code under test (`fatal error: concurrent map read and map write`
 // cannot be recovered) kills only the child and becomes the observation of that side: run=fatal:<class> end=crashed.
@@ -88,12 +98,21 @@ func expectedM(limit, passes, f int) (int, bool) {
 	case passes == 0:
 		return limit, true
 	case limit == 0:
-		return passes * f, true
+		return satMul(passes, f), true
 	}
-	if limit < passes*f {
+	if limit < satMul(passes, f) {
 		return limit, true
 	}
-	return passes * f, true
+	return satMul(passes, f), true
+}
+
+const huge = 1 << 40 // "more than any cell delivers"
+
+func satMul(a, b int) int {
+	if a != 0 && b != 0 && (a >= huge || b >= huge || a*b >= huge) {
+		return huge
+	}
+	return a * b
 }
 
 func capFor(limit, passes, f, n int) int {
@@ -101,8 +120,8 @@ func capFor(limit, passes, f, n int) int {
 		return 3*n + 5
 	}
 	m := limit
-	if passes*f > m {
-		m = passes * f
+	if satMul(passes, f) > m {
+		m = satMul(passes, f)
 	}
 	return m + n + 3
 }
@@ -117,6 +136,11 @@ type cellSpec struct {
 	fh            []c14cell.HdrAt
 	ch            []c14cell.Hdr
 	pre           bool
+	// round 3
+	limitS, passesS string // when set: the decimal text of a limit / passes beyond int (the cell must have a cap)
+	cf              bool
+	pad             int
+	big             [][2]int // (entry, size) of the big entries
 }
 
 func (c cellSpec) line() string {
@@ -140,7 +164,14 @@ func (c cellSpec) line() string {
 	if cp == 0 {
 		cp = capFor(c.limit, c.passes, chosenCount(c.tags, c.cases), len(c.tags))
 	}
-	s := fmt.Sprintf("fmt=%s tags=%s cases=%s limit=%d passes=%d cap=%d junk=%d", c.format, ts, cs, c.limit, c.passes, cp,
+	ls, ps := strconv.Itoa(c.limit), strconv.Itoa(c.passes)
+	if c.limitS != "" {
+		ls = c.limitS
+	}
+	if c.passesS != "" {
+		ps = c.passesS
+	}
+	s := fmt.Sprintf("fmt=%s tags=%s cases=%s limit=%s passes=%s cap=%d junk=%d", c.format, ts, cs, ls, ps, cp,
 		c.layout%c14cell.Layouts(c.format))
 	if c.uris && c.format == c14cell.KURI && len(c.tags) > 0 { // an empty `uris:` list is no source at all
 		s += " src=uris"
@@ -164,6 +195,19 @@ func (c cellSpec) line() string {
 			ps[i] = h.Key + ":" + h.Val
 		}
 		s += " ch=" + strings.Join(ps, ";")
+	}
+	if c.cf {
+		s += " cf=1"
+	}
+	if c.pad > 0 {
+		s += fmt.Sprintf(" pad=%d", c.pad)
+	}
+	if len(c.big) > 0 {
+		ps := make([]string, len(c.big))
+		for i, b := range c.big {
+			ps[i] = fmt.Sprintf("%d:%d", b[0], b[1])
+		}
+		s += " big=" + strings.Join(ps, ",")
 	}
 	return s
 }
@@ -425,6 +469,88 @@ func gen(r *rand.Rand, tier string) []string {
 		}
 	}
 
+	// ---- round 3 ------------------------------------------------------------------------------------------------
+	// (H) bounds beyond int32 / int64 (the provider's Limit and Passes are uint): cut by the cap, or — a huge bound
+	// next to a small one — ended by the small one
+	// 2^32, 2^32+1, 2^62 (x4 = 2^64), ceil(2^64/3) (x3 = 2^64+2), 2^63-1, 2^63 (x2 = 2^64), 2^64-1: a product with the
+	// number of chosen entries (2, 3, 4) that does not fit uint wraps to 0, 2, …
+	hugeVals := []string{"4294967296", "4294967297", "4611686018427387904", "6148914691236517206", "9223372036854775807",
+		"9223372036854775808", "18446744073709551615"}
+	type hfile struct{ tags, cases []string }
+	hfiles := []hfile{{[]string{"a", "b", "a"}, nil}, {[]string{"a", "b", "a"}, []string{"a"}}, {[]string{"a", "b", "a", "b"}, nil},
+		{[]string{"a", "b", "a"}, []string{"zz"}}}
+	for fi, f := range formats {
+		for si, hf := range hfiles {
+			for hi, hv := range hugeVals {
+				k := fi + si + hi
+				tags, cases := hf.tags, hf.cases
+				// huge limit, cut at the cap; huge passes, cut at the cap; both huge; huge limit with 2 passes; 5 with huge passes
+				add(cellSpec{format: f, tags: tags, cases: cases, limit: huge, limitS: hv, cap: 7, layout: k, yaml: k%2 == 0, uris: k%3 == 0})
+				add(cellSpec{format: f, tags: tags, cases: cases, passes: huge, passesS: hv, cap: 9, layout: k, yaml: k%2 == 1})
+				if thorough || k%2 == 0 {
+					add(cellSpec{format: f, tags: tags, cases: cases, limit: huge, limitS: hv, passes: huge, passesS: hugeVals[(hi+1)%len(hugeVals)], cap: 5, layout: k})
+					add(cellSpec{format: f, tags: tags, cases: cases, limit: huge, limitS: hv, passes: 2, layout: k, yaml: k%2 == 0})
+					add(cellSpec{format: f, tags: tags, cases: cases, limit: 5, passes: huge, passesS: hv, layout: k, uris: k%2 == 0})
+				}
+			}
+		}
+	}
+
+	// (I) closing the ammo file fails: alone (the run ends by a bound, by "no ammo"), together with a cancellation in the
+	// middle, together with a constructor-level rejection; every format, both routes
+	for fi, f := range formats {
+		for ti, tags := range [][]string{{"a", "b", "a"}, {"b"}, {}} {
+			for si, cases := range [][]string{nil, {"a"}, {"zz"}} {
+				for bi, b := range [][2]int{{0, 0}, {2, 0}, {0, 2}, {5, 3}} {
+					k := fi + ti + si + bi
+					add(cellSpec{format: f, tags: tags, cases: cases, limit: b[0], passes: b[1], layout: k, yaml: k%2 == 0, cf: true})
+					if m, ok := expectedM(b[0], b[1], chosenCount(tags, cases)); ok && m >= 2 {
+						add(cellSpec{format: f, tags: tags, cases: cases, limit: b[0], passes: b[1], cap: 1 + k%(m-1), layout: k, yaml: k%2 == 1, cf: true})
+					}
+				}
+			}
+		}
+	}
+
+	// (J) sources larger than the decoders' buffers (bufio 4 KiB, bufio.Scanner 64 KiB): every entry's URI is padded
+	for fi, f := range formats {
+		pads := []int{700, 5000, 60000}
+		if f != c14cell.KURI {
+			pads = append(pads, 70000) // one line longer than bufio.MaxScanTokenSize (the uri decoder's limit)
+		}
+		for pi, pad := range pads {
+			for si, cases := range [][]string{nil, {"a"}, {"c", "zz"}} {
+				for bi, b := range [][2]int{{0, 2}, {5, 0}, {6, 3}} {
+					k := fi + pi + si + bi
+					if !thorough && pad >= 60000 && (si+bi)%3 != 0 {
+						continue
+					}
+					add(cellSpec{format: f, tags: []string{"a", "b", "a", "c"}, cases: cases, limit: b[0], passes: b[1], layout: k,
+						uris: k%3 == 0, yaml: k%4 == 1, pad: pad})
+				}
+			}
+		}
+	}
+
+	// (K) one entry around the 1 MiB chunk of decoders.readSized (uripost: body; raw: request; http/json: body)
+	for fi, f := range []string{c14cell.KURIPost, c14cell.KRaw, c14cell.KJSONLine} {
+		sizes := []int{1<<20 - 1, 1 << 20, 1<<20 + 1, 2<<20 + 5}
+		if thorough {
+			sizes = append(sizes, 2<<20, 3<<20+1, 1<<19)
+		}
+		for zi, size := range sizes {
+			for si, cases := range [][]string{nil, {"a"}} {
+				k := fi + zi + si
+				add(cellSpec{format: f, tags: []string{"a", "b", "a"}, cases: cases, passes: 2, layout: k, yaml: k%2 == 0,
+					big: [][2]int{{2 * (k % 2), size}}})
+				if zi%2 == 0 { // two big entries of different sizes in one source (each must keep its own bytes)
+					add(cellSpec{format: f, tags: []string{"a", "b", "a"}, cases: cases, limit: 5, layout: k + 1, yaml: k%2 == 1,
+						big: [][2]int{{0, size}, {2, 1<<20 + 9 + zi}}})
+				}
+			}
+		}
+	}
+
 	// (E) random cells
 	extra := 8000
 	maxN := 9
@@ -490,13 +616,33 @@ func gen(r *rand.Rand, tier string) []string {
 		if m, ok := expectedM(limit, passes, f); ok && m >= 2 && r.Intn(5) == 0 {
 			c.cap = 1 + r.Intn(m-1)
 		}
+		// round 3: a tenth with a failing Close, a twelfth padded beyond the buffers
+		if r.Intn(10) == 0 {
+			c.cf = true
+			c.uris = false
+		}
+		if r.Intn(12) == 0 {
+			c.pad = 300 + r.Intn(2700)
+		}
 		add(c)
 	}
 	return out
 }
 
+// atoi: a number beyond int counts as `huge`
 func atoi(s string) int {
-	n, _ := strconv.Atoi(s)
+	n, err := strconv.Atoi(s)
+	if err != nil && u64(s) > 0 {
+		return huge
+	}
+	if n > huge {
+		return huge
+	}
+	return n
+}
+
+func u64(s string) uint64 {
+	n, _ := strconv.ParseUint(s, 10, 64)
 	return n
 }
 
@@ -514,9 +660,13 @@ func side(prefix string, o c14cell.Obs) string {
 		cut = 1
 	}
 	if o.Construct != "" {
-		return fmt.Sprintf("%s.seq=- %s.cut=0 %s.run=construct %s.end=norun", prefix, prefix, prefix, prefix)
+		return fmt.Sprintf("%s.seq=- %s.cut=0 %s.run=construct %s.end=norun %s.closed=-", prefix, prefix, prefix, prefix, prefix)
 	}
-	return fmt.Sprintf("%s.seq=%s %s.cut=%d %s.run=%s %s.end=%s", prefix, seq, prefix, cut, prefix, o.Run, prefix, o.End)
+	closed := "-"
+	if o.Closed >= 0 && o.End != "crashed" {
+		closed = strconv.Itoa(o.Closed)
+	}
+	return fmt.Sprintf("%s.seq=%s %s.cut=%d %s.run=%s %s.end=%s %s.closed=%s", prefix, seq, prefix, cut, prefix, o.Run, prefix, o.End, prefix, closed)
 }
 
 // hdOf: for every delivered entry id (ascending) the distinct Host/header strings its requests carried; `*:` when
@@ -577,12 +727,21 @@ func listOf(s string) []string {
 
 func cellOf(input string, preload bool) c14cell.Cell {
 	kv := drv.KV(input)
-	return c14cell.Cell{
-		Kind: kv["fmt"], Preload: preload, Limit: atoi(kv["limit"]), Passes: atoi(kv["passes"]),
+	c := c14cell.Cell{
+		Kind: kv["fmt"], Preload: preload, Limit: u64(kv["limit"]), Passes: u64(kv["passes"]),
 		Tags: listOf(kv["tags"]), Chosen: listOf(kv["cases"]), Cap: atoi(kv["cap"]), Layout: atoi(kv["junk"]),
 		Uris: kv["src"] == "uris", YAML: kv["via"] == "yaml", FH: parseFH(kv["fh"]), CH: parseCH(kv["ch"]),
-		Pre: kv["pre"] == "1",
+		Pre: kv["pre"] == "1", CloseFail: kv["cf"] == "1", Pad: atoi(kv["pad"]),
 	}
+	if kv["big"] != "" {
+		c.Big = map[int]int{}
+		for _, e := range strings.Split(kv["big"], ",") {
+			if b := strings.SplitN(e, ":", 2); len(b) == 2 {
+				c.Big[atoi(b[0])] = atoi(b[1])
+			}
+		}
+	}
+	return c
 }
 
 // runCell (in the child): c14cell.Run already repeats a cell that looks stuck once; a cell that still looks stuck is
@@ -609,7 +768,9 @@ func childMain() {
 		line, err := in.ReadString('\n')
 		line = strings.TrimRight(line, "\r\n")
 		if len(line) > 2 {
-			o := runCell(cellOf(line[2:], line[0] == 'p'))
+			c := cellOf(line[2:], line[0] == 'p')
+			c14cell.Prelude(c.Kind, c.Preload)
+			o := runCell(c)
 			b, _ := json.Marshal(o)
 			out.WriteString(obsPrefix)
 			out.Write(b)
@@ -846,6 +1007,18 @@ func class(input, obs string) string {
 	if kv["pre"] == "1" {
 		b = "precancelled"
 	}
+	if kv["cf"] == "1" {
+		b += "+closefault"
+	}
+	if atoi(kv["limit"]) >= huge || atoi(kv["passes"]) >= huge {
+		b += "+hugebound"
+	}
+	if kv["pad"] != "" {
+		b += "+padded"
+	}
+	if kv["big"] != "" {
+		b += "+bigentry"
+	}
 	return src + "/" + sel + "/" + b
 }
 
@@ -867,6 +1040,8 @@ func main() {
 			"every cancellation point below the end of bounded cells; thorough: every file of <= 5 entries over {a,b,untagged} x every chosencases subset of {a,b,\"\",zz} x limit 0..4 x passes 0..2; " +
 			"header declarations of the source (uri/uripost: [K: v] lines before, between and after the entries, redeclared, other spelling, Host; http/json, raw: per entry) x `headers` option x filter x bounds x layouts; " +
 			"plus random files (tags from {a,b,c,ab,B,untagged,'a b'}), random chosencases subsets (incl. nothing-matching, duplicates), bounds and (a third) random header declarations; " +
+			"round 3: a failing Close of the ammo file (alone, with a cancellation in the middle, with nothing chosen), bounds up to 2^64-1, sources padded beyond the decoders' buffers (4 KiB, 64 KiB), one entry around the 1 MiB read chunk; " +
+			"the consumer treats every request like a gun (mutates it after looking at it); every cell side is preceded in its process by a prelude provider with another configuration; " +
 			"every cell runs in a child process (a fatal runtime error of the code under test is the observation run=fatal:<class>); class = format(source) / filter shape / bound shape [+headers]",
 	})
 }
